@@ -274,3 +274,14 @@ func firstLine(s string) string {
 	}
 	return s
 }
+
+// openFinding reports whether the driver lists the finding as open in known_findings.json
+// (VERIF_OPEN). Only open findings are excluded from the search; a fixed one suppresses nothing.
+func openFinding(id string) bool {
+	for _, x := range strings.Split(os.Getenv("VERIF_OPEN"), ",") {
+		if x == id {
+			return true
+		}
+	}
+	return false
+}
